@@ -1,8 +1,8 @@
 CHECKS = [
     entry("C15", "timing",
           technique="property-based testing (rapid): model-based stateful histories against the real StressRelief with harness-owned clock and recalculation, reference hysteresis automaton + exact integer rms",
-          quick=dict(checks=20000, budget_s=40),
-          thorough=dict(checks=60000, shards=16, budget_s=300),
+          quick=dict(checks=15000, budget_s=45),
+          thorough=dict(checks=150000, shards=16, budget_s=400),
           level_text="Generated histories of queue/memory readings, peer reports (incl. expiry at the exact instant +-1 ns), clock advances aimed at the hold deadline, and mode/threshold/duration reloads; after every recalculation stress_level and Stressed() are compared with the automaton of the statement. Exploration: finds deviations on the histories reached; does not prove absence.",
           level_note="Trusts clockwork.FakeClock; Recalc is driven by the harness, not by the 100 ms ticker; the own level is taken from Recalc() (formula from readings to own level is not asserted); hold deadline after a mid-episode reload is treated as don't-care; redis pubsub transport is replaced by a synchronous double."),
 ]
